@@ -16,9 +16,16 @@ Tie to the source:
       (exactly, dyadic rationals) to what Model.__call__ returns with the free parameters updated;
       the same request a second time gives the same text and the model's parameters are untouched.
 
-The pinned facts are those of the tree with fixes/C07-*.diff applied; the snapshot's facts are
-kept in Coq as regression witnesses (C07_snapshot_*_refuted).  Cases inside a recorded finding's
-guard (known_findings.d/C07.json, `finding_for`) are counted, not reported.
+The pinned facts are those of the tree with the three applied repairs (b1ee1b9, 24c6733, 3b18255);
+the snapshot's facts are kept in Coq as regression witnesses (C07_snapshot_*_refuted).  Two more
+facts (`ia`, `untouched`) belong to repairs that are proposed but not yet in /repo: the value the
+check expects is read from coq/codegen/ExpectedFacts.v (tools/c07_switch.py).  Cases inside a
+RECORDED finding's guard (known_findings.d/C07.json, `finding_for`) are counted, not reported.
+
+Besides random models the check sweeps the whole function table (harness/c07_fns.py): every
+translatable function as a rate, as a derived quantity and as a computed coefficient over free
+parameters, at argument tuples that take every condition of its source to True and to False
+(c07_gen.probes instruments the source; fail-closed).
 """
 
 from __future__ import annotations
@@ -56,6 +63,18 @@ _PARAM_COPIES = {
     "parameters = {**model.get_parameter_values()}",
     "parameters = copy.copy(model.get_parameter_values())",
 }
+# fixes/C07-assigned-parameter-value.diff: parameters defined by an initial assignment enter with the
+# value the model holds for them
+_IA_BLOCK = [
+    "all_parameter_values = model._create_cache().all_parameter_values",
+    "for name in model.get_parameter_names():\n    if name not in parameters:\n        parameters[name] = float(all_parameter_values[name])",
+]
+# fixes/C07-untouched-variable-zero.diff: an explicit zero for the variables no reaction acts on
+_ZERO_BLOCK = (
+    "if len(diff_eqs) > 0:\n    for variable in variables:\n        if variable not in diff_eqs:\n"
+    "            diff_eqs[variable] = {}\n"
+    "            source.append(assignment_template.format(k=f'd{variable}dt', v='0.0'))"
+)
 _MID = [
     "if imports is not None:\n    source.extend(imports)",
     "if not sized:\n    source.append(model_fn)\nelse:\n    source.append(model_fn.format(n=len(variables)))",
@@ -196,6 +215,14 @@ _RET = {
     "jl": {"    return {}": "RetBare"},
 }
 
+def _expected_switch() -> dict[str, str]:
+    """the two hand-maintained lines of coq/codegen/ExpectedFacts.v (tools/c07_switch.py)"""
+    text = (common.area_dir(AREA) / "ExpectedFacts.v").read_text()
+    ia = re.search(r"Definition C07_expected_ia : ia_kind := (\w+)\.", text)
+    ut = re.search(r"Definition C07_expected_untouched : ut_kind := (\w+)\.", text)
+    return {"ia": ia.group(1) if ia else "IaUnknown", "untouched": ut.group(1) if ut else "UtUnknown"}
+
+
 EXPECTED_FACTS = {
     "py": ("AsgName", "DsList", "RetBracket", "false"),
     "ts": ("AsgName", "DsList", "RetBracket", "false"),
@@ -206,7 +233,7 @@ EXPECTED_FACTS = {
     "shape_ok": "true",
     "stoich_ok": "true",
     "printers_ok": "true",
-}
+}  # + "ia" / "untouched": whatever coq/codegen/ExpectedFacts.v says (snapshot or repaired)
 
 
 class _NormMsg(ast.NodeTransformer):
@@ -231,7 +258,8 @@ def _find(tree: ast.Module, name: str) -> ast.FunctionDef | None:
 def extract_facts() -> dict[str, Any]:
     facts: dict[str, Any] = {
         l: ("AsgUnknown", "DsUnknown", "RetUnknown", "false") for l in G.LANGS
-    } | {"order": "OrdUnknown", "copy": "false", "shape_ok": "false", "stoich_ok": "false", "printers_ok": "false"}
+    } | {"order": "OrdUnknown", "copy": "false", "shape_ok": "false", "stoich_ok": "false", "printers_ok": "false",
+         "ia": "IaUnknown", "untouched": "UtUnknown"}
     try:
         tree = ast.parse((common.REPO / "src/mxlpy/meta/codegen_model.py").read_text())
         tools = ast.parse((common.REPO / "src/mxlpy/meta/sympy_tools.py").read_text())
@@ -240,17 +268,27 @@ def extract_facts() -> dict[str, Any]:
     fn = _find(tree, "_generate_model_code")
     if fn is not None:
         st = _stmts(fn)
-        ok = st[:2] == _PRE and len(st) > 8 and st[3:8] == _MID
+        ok = st[:2] == _PRE and len(st) > 3
         if ok and st[2] == _PARAM_PLAIN:
             facts["copy"] = "false"
         elif ok and st[2] in _PARAM_COPIES:
             facts["copy"] = "true"
         else:
             ok = False
-        if ok and st[8:] == _EMIT_DECL + _POST:
-            facts["order"] = "OrdDecl"
-        elif ok and st[8:] == _EMIT_DEP + _POST:
-            facts["order"] = "OrdDep"
+        rest = st[3:]
+        if ok and rest[:2] == _IA_BLOCK:
+            facts["ia"], rest = "IaFrozen", rest[2:]
+        elif ok:
+            facts["ia"] = "IaDropped"
+        ok = ok and rest[:5] == _MID
+        rest = rest[5:]
+        # the explicit zeros come right after the loop that writes the sums
+        post_zero = _POST[:3] + [_ZERO_BLOCK] + _POST[3:]
+        for emit, kind in ((_EMIT_DECL, "OrdDecl"), (_EMIT_DEP, "OrdDep")):
+            if ok and rest[: len(emit)] == emit and rest[len(emit) :] in (_POST, post_zero):
+                facts["order"] = kind
+                facts["untouched"] = "UtZero" if rest[len(emit) :] == post_zero else "UtDropped"
+                break
         else:
             ok = False
         wrappers_ok = True
@@ -307,7 +345,7 @@ def gen() -> dict[str, Any]:
         "From Codegen Require Import Codegen.\n"
         "Definition gen_codegen_facts : facts :=\n"
         f"  mkFacts {lf(f['py'])} {lf(f['ts'])}\n          {lf(f['rs'])} {lf(f['jl'])}\n"
-        f"          {f['order']} {f['copy']} {f['shape_ok']} {f['stoich_ok']} {f['printers_ok']}.\n"
+        f"          {f['order']} {f['copy']} {f['shape_ok']} {f['stoich_ok']} {f['printers_ok']} {f['ia']} {f['untouched']}.\n"
     )
     common.write_if_changed(common.area_dir(AREA) / "GenCodegenFacts.v", text)
     return {k: (list(v) if isinstance(v, tuple) else v) for k, v in f.items()}
@@ -435,21 +473,30 @@ def judge(desc: dict, lang: str, obs: dict, execs: list[tuple] | None, refs: lis
     return None
 
 
+KNOWN_IDS: set[str] = set()  # ids of the findings recorded for C07 right now (filled by check / replay)
+
+
 def finding_for(desc: dict, lang: str, exec_class: str | None = None) -> str | None:
-    """The recorded finding whose guard contains this case (None: inside the guard of the theorem
-    C07_equiv: a violation there is a VIOLATION)."""
+    """The RECORDED finding whose guard contains this case (None: the case is inside the guards of
+    C07_equiv_partial, or its finding is no longer recorded -- e.g. moved to "fixed" by
+    tools/c07_switch.py: a violation there is a VIOLATION)."""
     f = G.shape_flags(desc)
+    cands = []
     if lang == "jl":
-        return "jl-template"
+        cands.append("jl-template")
     if f["n_var"] == 0:
-        return "no-variables-unit-return"  # `()` wrapped by the return template: `[()]`
-    if f["uncovered"]:
-        return "variable-without-reaction"
+        cands.append("no-variables-unit-return")  # `()` wrapped by the return template: `[()]`
+    elif f["no_equation"]:
+        cands.append("no-equation-unit-return")  # variables, but diff_eqs is empty: `[()]` again
+    elif f["uncovered"]:
+        cands.append("variable-without-reaction")
     if f["has_ia"]:
-        return "assigned-parameter-not-emitted"
+        cands.append("assigned-parameter-not-emitted")
+        if f["free_feeds_ia"]:
+            cands.append("assigned-parameter-reads-free-parameter")  # the emitted value is the one at generation time
     if lang == "rs" and exec_class == "intlit":
-        return "rs-integer-literal"
-    return None
+        cands.append("rs-integer-literal")
+    return next((c for c in cands if c in KNOWN_IDS), None)
 
 
 # ---------------------------------------------------------------------------------------
@@ -490,6 +537,11 @@ def points_to_json(pts: list[tuple]) -> list:
 
 def points_from_json(j: list) -> list[tuple]:
     return [(Fraction(t), [Fraction(v) for v in y], [Fraction(v) for v in fv]) for t, y, fv in j]
+
+
+def _fids(desc: dict) -> list[int]:
+    out = [f for _n, f, _a in desc["der"]] + [f for _n, f, _a, _s in desc["rxn"]]
+    return out + [cf[1] for _n, _f, _a, st in desc["rxn"] for _c, cf in st if cf[0] == "dyn"]
 
 
 def describe(desc: dict) -> str:
@@ -598,6 +650,19 @@ def _corpus() -> list[dict]:
                 "rxn": [(14, 4, [11, 12], [(12, ("stat", F(-1))), (13, ("dyn", 16, [11]))])], "free": []})
     out.append({"par": [(11, F(2), None)], "var": [(12, F(1)), (13, F(2))], "der": [],
                 "rxn": [(14, 17, [11, 12], [(12, ("stat", F(-1))), (13, ("stat", F(1)))])], "free": [11]})
+    # an assignment-defined parameter AND a variable no reaction acts on (the two proposed repairs)
+    out.append({"par": [(11, F(2), None), (12, F(4), (6, [11]))], "var": [(13, F(1)), (14, F(1))], "der": [],
+                "rxn": [(15, 4, [12, 13], [(13, ("stat", F(-1)))])], "free": []})
+    # the assignment-defined parameter requested as a free parameter (KeyError before the repair)
+    out.append({**out[-1], "free": [12]})
+    # an untouched variable between two touched ones, a second key of diff_eqs first mentioned later
+    out.append({"par": [(11, F(2), None)], "var": [(12, F(1)), (13, F(1)), (14, F(2))], "der": [],
+                "rxn": [(15, 4, [11, 14], [(14, ("stat", F(-1)))]), (16, 4, [11, 12], [(12, ("stat", F(1, 2)))])], "free": [11]})
+    # variables but no reaction acting on anything (`[()]`)
+    out.append({"par": [(11, F(2), None)], "var": [(12, F(1))], "der": [(13, 4, [11, 12])], "rxn": [], "free": []})
+    # a free parameter that reaches the right-hand side only through a parameter-only coefficient
+    out.append({"par": [(11, F(2), None), (12, F(3), None)], "var": [(13, F(1))], "der": [],
+                "rxn": [(14, 0, [13], [(13, ("dyn", 4, [11, 12]))])], "free": [11]})
     return out
 
 
@@ -639,30 +704,45 @@ def check(run: Run) -> None:
     thorough = run.tier == "thorough"
     facts = gen()
     run.coverage["gen_facts"] = facts
+    # the oracle's notion of "inside a recorded finding" follows the tree under test
+    G.IA_FROZEN = facts["ia"] == "IaFrozen"
+    G.UT_ZERO = facts["untouched"] == "UtZero"
+    KNOWN_IDS.clear()
+    KNOWN_IDS.update(f["id"] for f in common.load_known_findings("C07"))
     run.rule = (
-        "random surrogate-free models (1-3 parameters incl. assignment-defined ones, 0-3 variables, 1-7 derived/reactions "
-        "in random declaration order, derived reading reactions, integer/fractional/computed coefficients, conditionals, "
-        "untranslatable functions, free parameters in any order) x languages x 3 states (integers and halves); a case is "
-        "non-trivial if it has a reaction and generation succeeds or is refused; distinct by content"
+        "corpus + function-table sweep (every translatable function as rate / derived quantity / computed coefficient over "
+        "free parameters, evaluated on both sides of every condition of its source) + random surrogate-free models (1-3 "
+        "parameters incl. assignment-defined ones, 0-3 variables, 1-7 derived/reactions in random declaration order, derived "
+        "reading reactions, integer/fractional/computed coefficients incl. parameter-only ones with a free parameter called "
+        "off its stored value, conditionals in return position and branch-local reassignment of locals, untranslatable "
+        "functions, free parameters in any order) x languages x >= 3 states (integers and halves); a case is non-trivial if "
+        "it has a reaction and generation succeeds or is refused; distinct by content"
     )
     proofs_ok = run.check_proofs(AREA, PROPS)
     run.assumptions += [
-        "Coq 8.16.1 kernel + vm_compute; all 13 statements of PropsC07.v closed under the global context (see trusted_base)",
+        "Coq 8.16.1 kernel + vm_compute; all 20 statements of PropsC07.v closed under the global context (see trusted_base)",
+        "coq/codegen/ExpectedFacts.v (hand-maintained, tools/c07_switch.py): which form of the two places with a proposed, not yet applied repair (assignment-defined parameters, variables without a reaction) the regenerated facts are pinned to; the recorded findings list decides which failures are counted instead of reported",
         "hypothesis C06 of C07_equiv_partial: per-function translation soundness (property C06) -- the inlined target expression of a translated function has the value of the Python function; fn_to_sympy, SymPy's simplifier and its py/js/rust/julia printers are covered by that hypothesis, not verified (validated on every case by executing the emitted text)",
         "hypothesis ValidOrder: the order read from the model's cache lists every derived quantity/reaction after what it reads (what C02 proves of the sorter); Resolved is the specification of 'what the model returns' (C01), compared with Model.__call__ on every case (aspect 3 of the correspondence)",
-        "guards of C07_equiv_partial = complement of the recorded findings: L <> Julia, at least one variable, every variable acted on by a reaction, no assignment-defined parameter; unique parameter names (dict keys)",
+        "guards of C07_equiv_partial = complement of the recorded findings: L <> Julia, at least one variable, every variable acted on by a reaction (or: the tree writes the explicit zero and some reaction acts on something), no assignment-defined parameter (or: the tree emits them with the value the model holds -- then their value is taken as given: an assignment that reads a requested free parameter is outside the Coq model and never generated); unique parameter names (dict keys)",
+        "function table harness/c07_fns.py mirrored by hand in coq/codegen/CgInst.v (fsemQ/translatesQ); aspect 3 of the correspondence (specification vs Model.__call__) compares the two tables on every case, the sweep on both sides of every condition of every function",
         "fact extractor harness/c07.py::extract_facts (fail-closed ast matcher, whole-function normalised comparison); skeleton reader harness/c07_exec.py",
         "executors: CPython exec, node (type annotations stripped by a regex), rustc (thorough tier; one witness per quick run), a Julia-SUBSET interpreter written for this check (Julia is not installed)",
         "floating point: all generated values are small dyadic rationals and the functions polynomial/piecewise linear, so binary64 evaluation is exact; rounding is outside the model",
         "custom_fns overrides and surrogates are not modelled (the generator only warns about surrogates); Rust integer literals are outside the one-numeric-type model (recorded finding, oracle only)",
     ]
-    if facts != {k: (list(v) if isinstance(v, tuple) else v) for k, v in EXPECTED_FACTS.items()}:
+    if facts != {k: (list(v) if isinstance(v, tuple) else v) for k, v in (EXPECTED_FACTS | _expected_switch()).items()}:
         run.note(f"extracted facts differ from the pinned ones: {facts}")
 
     rng = common.rng_for(run.seed, "c07")
     langs = ("py", "ts", "rs", "jl") if thorough else ("py", "ts", "jl")
     n_models = 700 if thorough else 130
-    descs = _corpus()
+    descs: list = list(_corpus())
+    # every translatable function of the table on both sides of every condition of its source
+    # (own random stream: the sweep does not disturb the models drawn below)
+    sweep, sweep_stats = G.sweep_cases(common.rng_for(run.seed, "c07-sweep"))
+    run.coverage["function_table_sweep"] = sweep_stats
+    descs += sweep
     for i in range(n_models):
         descs.append(G.gen_desc(rng, profile="clean" if i % 3 == 0 else None))
     work = common.scratch_dir("c07")
@@ -675,8 +755,11 @@ def check(run: Run) -> None:
 def _check_body(run: Run, rng, descs: list[dict], langs, work, proofs_ok: bool) -> None:
     cases: list[dict] = []
     discarded = 0
-    for desc in descs:
-        points = G.gen_points(rng, desc)
+    for item in descs:
+        # a description, or (description, the states to evaluate it at)
+        desc, points = item if isinstance(item, tuple) else (item, None)
+        if points is None:
+            points = G.gen_points(rng, desc)
         try:
             indep = [G.evaluate(desc, t, y, fv) for t, y, fv in points] if G.shape_flags(desc)["free_ok"] else None
         except G.Unbounded:
@@ -712,6 +795,13 @@ def _check_body(run: Run, rng, descs: list[dict], langs, work, proofs_ok: bool) 
             dist["computed_coefficient"] = dist.get("computed_coefficient", 0) + 1
         if desc["free"]:
             dist["free_parameters"] = dist.get("free_parameters", 0) + 1
+        if G.free_reaches_coefficient(desc) and any(
+            fv != [v for f in desc["free"] for n, v, _ia in desc["par"] if n == f] for _t, _y, fv in c["points"]
+        ):
+            dist["free_parameter_in_parameter_only_coefficient_called_off_stored_value"] = (
+                dist.get("free_parameter_in_parameter_only_coefficient_called_off_stored_value", 0) + 1)
+        if any(f in FN.LOCAL_ASSIGNMENT for f in _fids(desc)):
+            dist["function_with_local_reassignment"] = dist.get("function_with_local_reassignment", 0) + 1
         dist[f"n_var={flags['n_var']}"] = dist.get(f"n_var={flags['n_var']}", 0) + 1
         run.count_case((G.coq_model(desc), lang, desc["free"]), nontrivial=bool(desc["rxn"]) and obs["gen"][0] in ("ok", "untrans", "untranscoef"))
         if c["indep"] is not None and any(r is not None and r != e for r, e in zip(c["refs"], c["indep"])):
@@ -745,6 +835,13 @@ def _check_body(run: Run, rng, descs: list[dict], langs, work, proofs_ok: bool) 
                     run.broken_correspondence.append(f"emitted {lang} text is not of a shape the generator is modelled to emit ({e}): {obs['text'][:200]!r}")
         # value-level outcomes outside the model: the whole vector bound to one name; integer literals in Rust
         skip_exec = (sk is not None and sk["ds"] == "DsBare" and len(sk["vars"]) == 1) or ex_class == "intlit"
+        # Rust, overlap of two recorded findings: a text that reads an undeclared name (assignment-defined parameter)
+        # AND is ill-typed (`[()]`, a return list shorter than [f64; n]) gets E0425 and/or E0308 depending on which
+        # diagnostics rustc suppresses -- which of the two failure classes it is, is not modelled
+        if lang == "rs" and ex_class in ("unbound", "illformed") and flags["has_ia"] and (
+            flags["n_var"] == 0 or flags["uncovered"] or flags["no_equation"]
+        ):
+            skip_exec = True
         coq_cases.append(coq_case(desc, lang, obs, sk, c["points"], c["refs"], ex, skip_exec))
         if len(run.samples) < 3 and obs["gen"] == ("ok",) and flags["n_var"] >= 2 and not bad:
             run.sample({"lang": lang, "model": describe(desc), "text": obs["text"], "state": points_to_json(c["points"][:1]),
@@ -799,6 +896,11 @@ def replay(rep: dict) -> int:
         print("nothing to replay:", rep.get("what"))
         return 1
     common.quiet_impl_logging()
+    facts = extract_facts()
+    G.IA_FROZEN = facts["ia"] == "IaFrozen"
+    G.UT_ZERO = facts["untouched"] == "UtZero"
+    KNOWN_IDS.clear()
+    KNOWN_IDS.update(f["id"] for f in common.load_known_findings("C07"))
     desc = desc_from_json(r["desc"])
     work = common.scratch_dir("c07replay")
     try:
